@@ -266,6 +266,10 @@ def units(prop):
                 u.outside.append((f"{mod}:{qual}#{desc}", str(e)))
                 return u
             u.functions.append(fx.describe())
+            odd = extract.odd_decorators(fx)
+            if odd:
+                u.outside.append((fx.id, f"decorated with {', '.join(odd)} (dropped by the extraction)"))
+                return u
             for label, setup in setups:
                 ex = symex.Executor(fx, contract_fn(), prop)
                 ex.fname = name
